@@ -92,7 +92,13 @@ def r14_1(ctx, R):
                                 if lic is None:
                                     on_empty = True
                             elif v_ in set(_payload(ctx, pt["dest"]["ty"])):
-                                lic = lic or "after-a-dequeued-child-was-polled"
+                                # a slot was dequeued: the licence is that its child WAS polled since (it may have re-woken itself
+                                # while the budget ran out); a dequeued entry that turned out vacant / stale licenses nothing
+                                last_pop = max([j for j in range(i_) if pth[j] == pbb] or [-1])
+                                if any(pth[j] in polls_ for j in range(last_pop + 1, i_)):
+                                    lic = lic or "after-a-dequeued-child-was-polled"
+                                elif lic is None:
+                                    on_empty = True
                             else:
                                 lic = lic or "queue-inconsistent"
                         if lic is None:
@@ -102,7 +108,7 @@ def r14_1(ctx, R):
             except RuntimeError:
                 unlicensed = []
             if on_empty:
-                ctx.ob("R14.1", d, "wake-on-plain-empty@%s" % _site_label(d, bb), False, d.loc(bb), "self-wake on the 'queue empty' arm spins the task")
+                ctx.ob("R14.1", d, "wake-on-plain-empty@%s" % _site_label(d, bb), False, d.loc(bb), "self-wake although the queue was empty / the dequeued entry was stale and nothing was polled: spins the task")
             licensed = ", ".join(sorted(licences)) if (arrivals and unlicensed is None and not on_empty) else None
             is_task = bb in {x[0] for x in R.task_wake_sites(d)}
             ctx.ob("R14.1", d, "licensed-self-wake@%s" % _site_label(d, bb), licensed is not None and is_task, d.loc(bb),
